@@ -15,7 +15,7 @@ RATIOS = [3.0, 3.5, 5.0, 10.0]
 PAYLOAD_CLASSES = ["empty", "notjson", "null", "array", "number", "string", "wrongtypes", "idnum", "toknum",
                    "missingid", "missingtoken", "emptyobj", "huge", "prionegative", "priohuge", "truncated", "other",
                    "shorttok", "tok1", "tok7", "emptytok", "emptyid", "longtok", "unicode", "nested", "dupkeys", "priofloat",
-                   "asshort:A", "asshort:B"]
+                   "asshort:A", "asshort:B", "owntrail_obj", "owntrail_text", "owntrail_comma"]
 STOP_VARIANTS = [
     {"do": "stop"},
     {"do": "stopctx"},
@@ -611,6 +611,15 @@ def fam_validate(tier, seed):
                 steps.append({"at": t + rng.randrange(1, 2 * H), "do": "reconn", "i": "A"})
         out.append(scn("val-%s-%s-%s-%d" % (cls.replace(":", "_"), "vod" if vod else "v", mode, k), seed * 1000 + k, H, ratio,
                        insts, steps, "validate", end, rules=rules, part_timeout_us=2 * S))
+    # the owner's own bytes followed by more bytes (not a JSON document), validated before the next heartbeat notices
+    for k, cls in enumerate(["owntrail_obj", "owntrail_text", "owntrail_comma"] * (1 if tier == "quick" else 6)):
+        for vod in (False, True):
+            H = rng.choice([500 * MS, 1 * S])
+            t = int((2.1 + 0.3 * rng.random()) * H)
+            steps = [{"at": 0, "do": "start", "i": "A"}, {"at": H // 3, "do": "start", "i": "B"}, {"at": t, "do": "out_put", "cls": cls},
+                     {"at": t + rng.choice([1, 5, 20]) * MS, "do": "validate", "i": "A", "vod": vod, "ctx_us": rng.choice([0, 300 * MS])}]
+            out.append(scn("val-%s-%s-direct-%d" % (cls, "vod" if vod else "v", k), seed * 1000 + 900 + k, H, 5.0,
+                           [inst("A", vi_us=2 * H), inst("B")], steps, "validate", 8 * H + 4 * S, lat=int(H * 0.04), part_timeout_us=2 * S))
     return out
 
 
@@ -859,6 +868,37 @@ def fam_regress(tier, seed):
             {"at": 0, "do": "start", "i": "A"}, {"at": H // 4, "do": "start", "i": "B"},
             {"when": {"i": "B", "kind": "get", "src": "takeover", "nth": 1, "phase": "post"}, "do": "out_put", "cls": "priohuge",
              "then": [{"do": "sleep", "us": 5 * MS}], "release": "now"}], "regress", 12 * H + 3 * S, lat=20 * MS, watch=30 * MS))
+        # 31. the leader's record is taken over while a reconnect verification is under way, and a heartbeat of the old leader
+        #     falls between the two reads of that verification: the refresh goes against the leader's own last revision
+        Hc = 1 * S
+        out.append(scn("reg-heartbeat-between-the-reads-of-reconnect-verification-%d" % k, seed * 1000 + k, Hc, 5.0,
+                       [inst("A", prio=1, conn=True, grace_us=20 * S), inst("B", prio=5, takeover=True)], [
+            {"at": 0, "do": "start", "i": "A"}, {"at": int(2.3 * Hc), "do": "start", "i": "B"},
+            {"at": int(2.42 * Hc), "do": "disc", "i": "A"}, {"at": int(2.45 * Hc), "do": "reconn", "i": "A"},
+            {"when": {"i": "A", "kind": "get", "src": "validate", "nth": 1, "phase": "pre"}, "do": "noop",
+             "then": [{"do": "sleep", "us": rng.choice([600, 700]) * MS}]}], "regress", 10 * Hc + 2 * S, lat=10 * MS, watch=20 * MS))
+        # 32. two acquisition rounds of one takeover-enabled instance (equal priorities everywhere): the first round's Create
+        #     succeeded but its answer is late; the sibling round finds the instance's own fresh record
+        Hs = 2 * S
+        out.append(scn("reg-sibling-round-reads-own-fresh-record-%d" % k, seed * 1000 + k, Hs, 5.0,
+                       [inst("A", prio=1, takeover=True), inst("B", prio=1, takeover=True)], [
+            {"at": 0, "do": "start", "i": "A"}, {"at": Hs // 10, "do": "start", "i": "B"},
+            {"at": int(1.6 * Hs), "do": "stopctx", "i": "A", "del": True},
+            {"when": {"i": "B", "kind": "create", "src": "acq", "nth": 6, "phase": "post"}, "do": "noop",
+             "then": [{"do": "sleep", "us": rng.choice([650, 750]) * MS}], "release": "now"},
+            {"when": {"i": "B", "kind": "update", "src": "takeover", "nth": 1, "phase": "post"}, "do": "noop",
+             "then": [{"do": "sleep", "us": 800 * MS}], "release": "now"}], "regress", 8 * Hs + 2 * S, lat=10 * MS, watch=20 * MS))
+        # 33. a takeover-enabled instance with a health checker steps down after unhealthy results, recovers, and a lower-priority
+        #     instance wins the record after its expiry: the recovered instance preempts it promptly
+        Hh = 1 * S
+        out.append(scn("reg-takeover-after-health-demotion-and-recovery-%d" % k, seed * 1000 + k, Hh, 3.0,
+                       [inst("A", prio=5, takeover=True, health_n=2, health="hhuu", health_rest="h"), inst("B", prio=1)], [
+            {"at": 0, "do": "start", "i": "A"}, {"at": Hh // 4, "do": "start", "i": "B"},
+            # (A's first Creates after the expiry reach the store late, so that B wins the vacancy)
+            {"when": {"i": "A", "kind": "create", "src": "acq", "nth": 6, "phase": "pre"}, "do": "noop",
+             "then": [{"do": "sleep", "us": 700 * MS}]},
+            {"when": {"i": "A", "kind": "create", "src": "acq", "nth": 7, "phase": "pre"}, "do": "noop",
+             "then": [{"do": "sleep", "us": 700 * MS}]}], "regress", 16 * Hh + 2 * S, lat=10 * MS, watch=20 * MS))
         # 19. a heartbeat tick held by a hanging health check while the leader is preempted and, as a follower, observes its
         #     successor's next refresh: when the check returns the tick must not go on to the Update
         out.append(scn("reg-hanging-check-across-preemption-%d" % k, seed * 1000 + k, H1, 5.0,
